@@ -43,6 +43,7 @@ type Op struct {
 	K    int      `json:"k,omitempty"`    // key index; store index (0..2) for stop/start; snapshots back for stale
 	R    [][2]int `json:"r,omitempty"`    // ranges for range/batch
 	Keys []int    `json:"keys,omitempty"` // keys for group
+	Ord  int      `json:"ord,omitempty"`  // sendx: order of the regions in the scripted EpochNotMatch answer (1 = derived region first, 2 = derived region last)
 }
 
 func (o Op) String() string {
@@ -53,6 +54,8 @@ func (o Op) String() string {
 		return fmt.Sprintf("pdStaleOnce(back=%d)", o.K)
 	case "drop", "gc", "bgtick":
 		return o.Kind
+	case "sendx":
+		return fmt.Sprintf("sendx(%s,%s)", keyOf(o.K), enmOrdName(o.Ord))
 	case "range", "batch":
 		var p []string
 		for _, r := range o.R {
@@ -78,6 +81,20 @@ func (o Op) String() string {
 	}
 	return o.Kind + `("")`
 }
+
+// enmOrdName names the order of the current regions in a scripted EpochNotMatch answer. "Derived"
+// is the region that kept the id of the region the request was addressed to.
+func enmOrdName(ord int) string {
+	if ord == enmDerivedLast {
+		return "derived-last"
+	}
+	return "derived-first"
+}
+
+const (
+	enmDerivedFirst = 1
+	enmDerivedLast  = 2
+)
 
 var errInjectedSendFail = errors.New("injected: send failed on the last untried store")
 
@@ -148,6 +165,8 @@ type world struct {
 	dead      bool                    // the code under test panicked: locks may be held, do not touch the instance again
 	opPre     locate.VerifC09Dump     // dump at the start of the current op (messages)
 	reloadHit bool                    // the current lookup touches a usable cached entry that is scheduled for reload
+	enmOrd    int                     // != 0 while a sendx op runs: EpochNotMatch answers of the store are rewritten TiKV-like in this order
+	enmDone   int                     // EpochNotMatch answers rewritten by the current op
 }
 
 type codecClient struct {
@@ -165,6 +184,73 @@ func (c *codecClient) SendRequest(ctx context.Context, addr string, req *tikvrpc
 		return nil, err
 	}
 	return c.codec.DecodeResponse(req, resp)
+}
+
+// enmClient sits directly on the mock RPC client (below the codec wrapper). While a sendx op runs
+// it rewrites the CurrentRegions list of every EpochNotMatch answer the way a TiKV store reports
+// it: the region that still has the request's id plus every other current region that overlaps the
+// range the request's (id, version) stood for - i.e. the siblings created by the split(s) - with
+// the id-keeping ("derived") region first or last. The mock itself always answers
+// [region, right neighbour], so the LEFT sibling of a right-derive split is never reported by it
+// (except by accident when the region is the last one: its "next" region is the first region).
+type enmClient struct {
+	client.Client
+	w *world
+}
+
+func (c *enmClient) SendRequest(ctx context.Context, addr string, req *tikvrpc.Request, timeout time.Duration) (*tikvrpc.Response, error) {
+	resp, err := c.Client.SendRequest(ctx, addr, req, timeout)
+	if err != nil || resp == nil || c.w.enmOrd == 0 {
+		return resp, err
+	}
+	re, rerr := resp.GetRegionError()
+	if rerr != nil || re == nil || re.GetEpochNotMatch() == nil {
+		return resp, err
+	}
+	if cur := c.w.tikvCurrentRegions(req.Context.GetRegionId(), req.Context.GetRegionEpoch().GetVersion(), c.w.enmOrd); cur != nil {
+		re.EpochNotMatch.CurrentRegions = cur
+		c.w.enmDone++
+		if c.w.check {
+			if c.w.enmOrd == enmDerivedLast {
+				c.w.st.enmDerivedLast.Add(1)
+			} else {
+				c.w.st.enmDerivedFirst.Add(1)
+			}
+		}
+	}
+	return resp, err
+}
+
+// overlapsOld: the current regions other than `id` that overlap the range [s,e) (key order).
+func overlapsOld(t []regionInfo, id uint64, s, e string) []uint64 {
+	var out []uint64
+	for i := range t {
+		r := &t[i]
+		if r.id != id && (e == "" || r.start < e) && (r.end == "" || s < r.end) {
+			out = append(out, r.id)
+		}
+	}
+	return out
+}
+
+// tikvCurrentRegions builds the scripted CurrentRegions list (clones of the cluster's metas, in
+// the cluster's own key encoding). nil = leave the mock's answer alone (unknown old range, region gone).
+func (w *world) tikvCurrentRegions(id, ver uint64, ord int) []*metapb.Region {
+	rng, ok := w.verRng[[2]uint64{id, ver}]
+	self, _ := w.cluster.GetRegion(id)
+	if !ok || self == nil {
+		return nil
+	}
+	var others []*metapb.Region
+	for _, oid := range overlapsOld(w.topo(), id, rng[0], rng[1]) {
+		if m, _ := w.cluster.GetRegion(oid); m != nil {
+			others = append(others, m)
+		}
+	}
+	if ord == enmDerivedLast {
+		return append(others, self)
+	}
+	return append([]*metapb.Region{self}, others...)
 }
 
 func newWorld(cfg *config, mvcc mocktikv.MVCCStore, st *stats) *world {
@@ -185,7 +271,7 @@ func newWorld(cfg *config, mvcc mocktikv.MVCCStore, st *stats) *world {
 	// so the health-check loop that a failed send would start is not spawned either.
 	w.cache.Close()
 	locate.VerifC09SetLiveness(w.cache, func(id uint64) bool { return w.up[id] })
-	var cl client.Client = mocktikv.NewRPCClient(w.cluster, mvcc, nil)
+	var cl client.Client = &enmClient{Client: mocktikv.NewRPCClient(w.cluster, mvcc, nil), w: w}
 	if cfg.codec {
 		cl = &codecClient{Client: cl, codec: apicodec.NewCodecV1(apicodec.ModeTxn)}
 	}
@@ -345,6 +431,21 @@ func (w *world) applicable(o Op) bool {
 	case "byidc":
 		e := cachedEntryFor(&w.prev, keyOf(o.K))
 		return e != nil && e.ID != regionOf(t, keyOf(o.K)).id
+	case "sendx":
+		// The request must go out with a cached entry whose region id still exists with another
+		// VERSION (then the store answers EpochNotMatch and has siblings to report). The two orders
+		// differ only when there is at least one sibling.
+		e := cachedEntryFor(&w.prev, keyOf(o.K))
+		if e == nil || e.TTL <= time.Now().Unix() || e.SyncFlags&reloadNow != 0 {
+			return false
+		}
+		for i := range t {
+			if t[i].id == e.ID && t[i].ver != e.Ver {
+				n := len(overlapsOld(t, e.ID, string(e.Start), string(e.End)))
+				return n >= 1 || o.Ord == enmDerivedFirst
+			}
+		}
+		return false
 	}
 	return true
 }
@@ -408,7 +509,7 @@ func (w *world) touchesReloadScheduled(o Op) bool {
 		})
 	}
 	switch o.Kind {
-	case "locate", "try", "send":
+	case "locate", "try", "send", "sendx":
 		return point(keyOf(o.K), false)
 	case "locend":
 		return point(keyOf(o.K), true)
@@ -506,6 +607,9 @@ func (w *world) apply(o Op) (outcome string) {
 		// incomparable (the cache relies on that order, see removeIntersecting).
 		setEpoch(nw, r.conf, old.Meta.RegionEpoch.Version)
 		if o.Kind == "splitl" { // the new id takes the LEFT half (TiKV's right-derive split)
+			if w.check {
+				w.st.rightDerive.Add(1)
+			}
 			old.Meta.StartKey, old.Meta.EndKey, nw.Meta.StartKey, nw.Meta.EndKey = nw.Meta.StartKey, nw.Meta.EndKey, old.Meta.StartKey, old.Meta.EndKey
 		}
 		w.snapshot()
@@ -630,6 +734,15 @@ func (w *world) apply(o Op) (outcome string) {
 		return w.checkGroups(keys, groups, first, err)
 	case "send":
 		out, _ := w.sendOnce(w.bo(), k)
+		return out
+	case "sendx":
+		// send with TiKV-like EpochNotMatch answers (see enmClient) in the order o.Ord
+		w.enmOrd, w.enmDone = o.Ord, 0
+		out, _ := w.sendOnce(w.bo(), k)
+		w.enmOrd = 0
+		if w.enmDone == 0 {
+			out += ":no-enm"
+		}
 		return out
 	default:
 		panic("harness: unknown op " + o.Kind)
